@@ -28,6 +28,10 @@ type ValidCfg struct {
 	// number of events the replayer may be holding (accepted and not yet certainly collected).
 	Ops     []int
 	MaxHeld int
+	// Depth is the search depth (set by the caller; 0: budgets are not folded into the key).
+	Depth int
+	// HugeTTL marks the configurations whose TTL is centuries (searched to a small depth).
+	HugeTTL bool
 }
 
 const tick = int64(time.Second)
@@ -212,6 +216,14 @@ func VisitValid(c ValidCfg, hist []uint8, which string, probes *int64) (uint64, 
 		key = key*1099511628211 ^ uint64(since)
 	}
 
+	// the per-history budgets are part of what the future can be (a state reached with the advances used up is
+	// not expanded like the same state reached with some left): what remains of them, capped by the remaining
+	// depth, belongs to the key - otherwise which histories get explored would depend on worker timing
+	if c.Depth > 0 && !c.Shape {
+		left := c.Depth - len(hist)
+		key = key*1099511628211 ^ uint64(min(c.MaxAdvances-adv, left))<<8 ^ uint64(min(c.MaxMacros-macros, left))
+	}
+
 	// reachability
 	reach := map[string]bool{}
 	for _, m := range deep.Messages(r) {
@@ -242,7 +254,7 @@ func VisitValid(c ValidCfg, hist []uint8, which string, probes *int64) (uint64, 
 		}
 		if lastOp == 0 || lastOp == 1 || lastOp == 6 || lastOp == 7 {
 			for _, e := range all {
-				if e.exp+int64(gcInterval) <= now && reach[e.id] {
+				if now-e.exp >= int64(gcInterval) && e.exp <= now && reach[e.id] {
 					return 0, true, viol("c18-expired-reachable-beyond-ttl-plus-gcinterval", "%s: the last operation was a Put at %.2fs, but the event %s, which expired at %.2fs (more than GCInterval %v earlier), is still reachable: no Put-triggered collection has run since it expired", desc(), float64(now)/float64(tick), e.id, float64(e.exp)/float64(tick), gcInterval)
 				}
 			}
@@ -282,7 +294,7 @@ func VisitValid(c ValidCfg, hist []uint8, which string, probes *int64) (uint64, 
 			}
 		}
 		exact := pid.class != "issued" || (pos >= 0 && !expired(all[pos]))
-		for _, T := range probeTopics {
+		for ti, T := range allProbeTopics[:len(probeTopics)+2] {
 			var want []string
 			if pos >= 0 && pid.class == "issued" {
 				for _, e := range all[pos+1:] {
@@ -292,6 +304,9 @@ func VisitValid(c ValidCfg, hist []uint8, which string, probes *int64) (uint64, 
 				}
 			}
 			for f := 0; f <= 2; f++ {
+				if ti >= len(probeTopics) && f > 0 {
+					break // the larger topic sets: without Send failures
+				}
 				if exact && f > len(want) && f > 1 {
 					continue // no Send to fail: same as f = 1
 				}
